@@ -69,7 +69,11 @@ def seeds_md():
 def benign_md(sec):
     lines = [l for l in sec.get('5', []) if l.strip()]
     n = len(glob.glob(os.path.join(here, 'benign/*.patch')))
-    return f"{n} behaviour-preserving patches x 20 properties. Last self test: " + (lines[-1].strip() if lines else 'not run')
+    exp = [l.strip() for l in open(os.path.join(here, 'benign/EXPECTED_UNDECIDED')) if l.strip() and not l.startswith('#')] if os.path.exists(os.path.join(here, 'benign/EXPECTED_UNDECIDED')) else []
+    out = f"{n} behaviour-preserving patches x 20 properties. Last self test: " + (lines[-1].strip() if lines else 'not run')
+    if exp:
+        out += "\n\nListed as undecided (exit 2, `UNDECIDED`, no `VIOLATION`):\n\n" + "\n".join("* `" + l.split()[0] + "` on " + l.split()[1] + " — " + " ".join(l.split()[2:]) for l in exp)
+    return out
 
 sec = log_sections()
 gen = {'rules': rules_md(), 'mutants': mutants_md(sec), 'reverts': reverts_md(sec), 'seeds': seeds_md(), 'benign': benign_md(sec)}
